@@ -396,7 +396,7 @@ fn own(reason: &str, prop: &str) -> bool {
 }
 
 pub fn run(ctx: &Ctx, rep: &mut Report) {
-    let total = ctx.universes(240, 16000);
+    let total = ctx.universes(1600, 160000);
     let per_universe = 26;
     let mut seen_classes = std::collections::BTreeSet::new();
     for uni in ctx.my_universes(total) {
@@ -620,6 +620,7 @@ pub fn run(ctx: &Ctx, rep: &mut Report) {
         }
     }
     rep.notes.insert("required".into(), json!(CLASSES));
+    rep.notes.insert("rule".into(), json!("per universe: gateway with retention in {0,1,2,5}, 1-3 initial sets, 0-6 honest rotations, optionally a second gateway with another domain separator and the same sets; 26 submissions (approve_messages or standalone validate_proof), every one of 23 classes at least once per universe (honest all/subset/exact-threshold/old-retained; one-short; signatures over another domain/command/batch/set; wrong key; bit flip; extra invalid signature; declared set with dropped/added/duplicated/swapped signer, changed weight/threshold/nonce, kept or re-signed; never installed; beyond retention; cross-gateway replay; empty batch); distinct = (class, entry point, expectation, outcome, signer count, retention, epoch gap)"));
     rep.notes.insert(
         "classes_seen".into(),
         json!(seen_classes.iter().collect::<Vec<_>>()),
